@@ -111,3 +111,12 @@ func TestC01Precedence(t *testing.T) {
 		}
 	}
 }
+
+func TestC01BangOnDataBool(t *testing.T) {
+	for inp, want := range map[string]string{`{{ !flag }}`: "0", `{{ !off }}`: "1", `{{ !true }}`: "0", `{{ !nil }}`: "1", `{{ !n }}`: "1"} {
+		out, err := evalNoPanic(t, inp, map[string]any{"flag": true, "off": false, "n": nil})
+		if err != nil || out != want {
+			t.Errorf("%s: got %q %v want %q", inp, out, err, want)
+		}
+	}
+}
